@@ -87,6 +87,12 @@ type gstate struct {
 	lastPoint  string
 	acqLid     int  // limiter of the Acquire in progress
 	acqTag     int  // harness-side name of the limiter the context of that Acquire resolves to
+	acqCid     int  // model index of the context Acquire was called with
+	newCid     int  // model index of the context the Acquire in progress returned (set when it took a token)
+	trCid      int  // model index of the context of the TemporarilyRelease being entered
+	trTok      *tok // holder that call is expected to act on (innermost holder of its context)
+	trArmed    bool // that call has not reached block() yet
+	trK        bool // the block() call being entered is the client's TemporarilyRelease on context trCid
 	fPanic     bool // the function passed to TemporarilyRelease is unwinding by panic
 	lastHolder interface{}
 	gives      []*tok
@@ -106,6 +112,7 @@ type gstate struct {
 }
 
 type scope struct {
+	cid    int // index of ctx among the contexts of Limiter/ModelChain.v: 0 base, 1 no limiter, then in creation order
 	limTag int // innermost limiter of ctx: 0 base, k > 0 the k-th With executed, -1 none
 	limCap int
 	ctx    context.Context
@@ -150,6 +157,7 @@ type env struct {
 	failDet  string
 	allGs    []*gstate
 	cb       *cbState
+	nCtx     int // contexts created so far (model numbering)
 }
 
 func (e *env) cur() *gstate {
@@ -300,7 +308,16 @@ func (e *env) runOps(gs *gstate, sc scope, ops []Op) {
 			e.stats["nested-with"]++
 			e.nWith++
 			nsc.limTag, nsc.limCap = e.nWith, op.N
+			// limiters are numbered in creation order (the order of Limiter/ModelChain.v): register it now
+			if lid := e.lidOf(nil, op.N, nsc.ctx, e.nWith); lid != e.nWith {
+				e.mirrorOK = false
+			}
+			nsc.cid = e.nCtx
+			e.nCtx++
 			e.mu.Unlock()
+			if e.ctl != nil && e.cb == nil {
+				e.emitK(fmt.Sprintf("KWith %d %d", sc.cid, op.N), 0, -1)
+			}
 			e.runOps(gs, nsc, op.Body)
 		case "batch":
 			if e.ctl == nil {
@@ -375,6 +392,18 @@ func (e *env) observe(gs *gstate, point string, args []interface{}) {
 			t.giving++
 			gs.gives = append(gs.gives, t)
 		}
+	case "limiter.block.cas":
+		// TemporarilyRelease acts on the innermost holder of its context
+		gs.trK = gs.trArmed
+		if gs.trArmed {
+			gs.trArmed = false
+			switch {
+			case gs.trTok == nil:
+				e.fail("temporary-release-on-another-holder-than-the-innermost", "TemporarilyRelease on a context without holder entered block() on some holder")
+			case gs.trTok.ptr != nil && gs.trTok.ptr != args[0]:
+				e.fail("temporary-release-on-another-holder-than-the-innermost", fmt.Sprintf("TemporarilyRelease on a context whose innermost holder is holder %d entered block() on another holder", gs.trTok.id))
+			}
+		}
 	}
 }
 
@@ -398,10 +427,12 @@ func (e *env) acquire(gs *gstate, sc scope, op Op) {
 	ctx := sc.ctx
 	outer := sc.tok
 	limTag, limCap := sc.limTag, sc.limCap
+	cid := sc.cid
 	if op.Mode == "nolimiter" {
 		ctx = e.nolim
 		outer = nil
 		limTag, limCap = -1, 0
+		cid = 1
 	}
 	cctx, cancel := context.WithCancel(ctx)
 	if op.Mode == "cancelled" {
@@ -409,6 +440,7 @@ func (e *env) acquire(gs *gstate, sc scope, op Op) {
 	}
 	e.mu.Lock()
 	gs.acqCtx, gs.acqCancl, gs.acqRes, gs.acqLater, gs.acqTag = cctx, cancel, 0, op.Mode == "cancel-later", limTag
+	gs.acqCid, gs.newCid = cid, cid
 	e.mu.Unlock()
 	nctx, rel := concurrencylimiter.Acquire(cctx)
 	live := cctx.Err() == nil
@@ -416,6 +448,11 @@ func (e *env) acquire(gs *gstate, sc scope, op Op) {
 	res := gs.acqRes
 	gs.acqCtx, gs.acqCancl = nil, nil
 	lid := gs.acqLid
+	if res == 1 && limTag >= 0 && lid < len(e.lims) && e.lims[lid].tag != limTag {
+		// the property's "limiter on a context" is the innermost one: an inner With shadows the outer
+		e.fail("acquire-used-another-limiter-than-the-innermost", fmt.Sprintf("Acquire on a context whose innermost limiter is number %d (limit %d) took a token of limiter number %d (limit %d)",
+			limTag, limCap, e.lims[lid].tag, e.lims[lid].cap))
+	}
 	if res != 1 && limTag >= 0 && live {
 		// Acquire returned on a live context that has a limiter, so the caller is between Acquire and release and
 		// counts against that limiter - although no token was seen being taken
@@ -425,7 +462,7 @@ func (e *env) acquire(gs *gstate, sc scope, op Op) {
 		e.mirrorOK = false
 	}
 	e.mu.Unlock()
-	nsc := scope{ctx: nctx, tok: outer, rel: rel, limTag: limTag, limCap: limCap}
+	nsc := scope{ctx: nctx, tok: outer, rel: rel, limTag: limTag, limCap: limCap, cid: gs.newCid}
 	if res == 1 {
 		e.mu.Lock()
 		t := &tok{id: len(e.toks), lid: lid, acquired: true, rel: rel}
@@ -462,6 +499,7 @@ func (e *env) tempRelease(gs *gstate, sc scope, body []Op, panics bool) {
 	mark := len(gs.gives)
 	depth := len(gs.stack)
 	gs.blkSeen = false
+	gs.trCid, gs.trTok, gs.trArmed = sc.cid, sc.tok, true
 	func() {
 		defer func() {
 			// the client recovers its own panic around TemporarilyRelease and goes on; anything else propagates
@@ -476,8 +514,21 @@ func (e *env) tempRelease(gs *gstate, sc scope, body []Op, panics bool) {
 				// context without holder: block() was not entered
 				tid := e.newThread(0)
 				gs.stack = append(gs.stack, &mth{tid: tid, lid: 0, kind: "blk", pf: true, hid: -1})
-				e.emit(0, "LNewBlock None", 13, -1)
+				if e.cb != nil {
+					e.emit(0, "LNewBlock None", 13, -1)
+				} else {
+					e.emitK(fmt.Sprintf("KBlock %d", gs.trCid), 13, -1)
+				}
 				e.stats["tr-no-holder"]++
+			}
+			if gs.trArmed {
+				// block() was not entered: the context must not carry a holder
+				gs.trArmed = false
+				if gs.trTok != nil && gs.trTok.ptr != nil {
+					e.mu.Lock()
+					e.fail("temporary-release-on-another-holder-than-the-innermost", "TemporarilyRelease on a context that carries a holder ran f without looking at that holder")
+					e.mu.Unlock()
+				}
 			}
 			gs.blkSeen = false
 			e.runOps(gs, sc, body)
@@ -534,7 +585,20 @@ func (e *env) emit(lid int, label string, code int, length int) {
 		e.cbEmit(fmt.Sprintf("(CL (L.%s), OL %d %s)", label, code, l))
 		return
 	}
-	e.events = append(e.events, fmt.Sprintf("(%d, %s, %d, %s)", lid, label, code, l))
+	e.events = append(e.events, fmt.Sprintf("(KOp %d (%s), %d, %s)", lid, label, code, l))
+}
+
+// emitK: a client label of Limiter/ModelChain.v that names a context (the model resolves it)
+func (e *env) emitK(klabel string, code int, length int) {
+	l := "None"
+	if length >= 0 {
+		l = fmt.Sprintf("(Some %d)", length)
+	}
+	if e.cb != nil {
+		e.mirrorOK = false // mode cb has one limiter and no context labels
+		return
+	}
+	e.events = append(e.events, fmt.Sprintf("(%s, %d, %s)", klabel, code, l))
 }
 
 func top(gs *gstate) *mth {
@@ -576,7 +640,11 @@ func (e *env) hookCtl(point string, args ...interface{}) {
 	switch point {
 	case "limiter.acquire.nolimiter":
 		tid := e.newThread(0)
-		e.emit(0, "LNewAcquire false false", 0, -1)
+		if e.cb != nil {
+			e.emit(0, "LNewAcquire false false", 0, -1)
+		} else {
+			e.emitK(fmt.Sprintf("KAcquire %d false", gs.acqCid), 0, -1)
+		}
 		e.emit(0, fmt.Sprintf("LAcqNoLimiter %d", tid), 2, -1)
 		gs.acqRes = 3
 		e.stats["acquire-nolimiter"]++
@@ -589,7 +657,11 @@ func (e *env) hookCtl(point string, args ...interface{}) {
 		tid := e.newThread(lid)
 		cancelled := gs.acqCtx != nil && gs.acqCtx.Err() != nil
 		gs.stack = append(gs.stack, &mth{tid: tid, lid: lid, kind: "acq", pend: "select"})
-		e.emit(lid, fmt.Sprintf("LNewAcquire true %v", cancelled), 0, length)
+		if e.cb != nil {
+			e.emit(lid, fmt.Sprintf("LNewAcquire true %v", cancelled), 0, length)
+		} else {
+			e.emitK(fmt.Sprintf("KAcquire %d %v", gs.acqCid, cancelled), 0, length)
+		}
 		if cancelled {
 			e.stats["acquire-on-cancelled-ctx"]++
 		}
@@ -603,6 +675,11 @@ func (e *env) hookCtl(point string, args ...interface{}) {
 		e.emit(m.lid, fmt.Sprintf("LAcqSend %d", m.tid), 1, length)
 		gs.stack = gs.stack[:len(gs.stack)-1]
 		gs.acqRes = 1
+		// Acquire returns a new context: the one it was called with plus the holder
+		e.mu.Lock()
+		gs.newCid = e.nCtx
+		e.nCtx++
+		e.mu.Unlock()
 	case "limiter.acquire.cancelled":
 		if m == nil || m.kind != "acq" {
 			bad()
@@ -661,7 +738,14 @@ func (e *env) hookCtl(point string, args ...interface{}) {
 		tid := e.newThread(lid)
 		gs.stack = append(gs.stack, &mth{tid: tid, lid: lid, kind: "blk", hid: hid, pend: "cas"})
 		gs.blkSeen = true
-		e.emit(lid, fmt.Sprintf("LNewBlock (Some %d)", hid), 6, length)
+		if e.cb != nil || !gs.trK {
+			if e.cb == nil {
+				bad() // a block() call the client program did not make
+			}
+			e.emit(lid, fmt.Sprintf("LNewBlock (Some %d)", hid), 6, length)
+		} else {
+			e.emitK(fmt.Sprintf("KBlock %d", gs.trCid), 6, length)
+		}
 	case "limiter.block.recv":
 		if m == nil || m.kind != "blk" || m.pend != "cas" {
 			bad()
@@ -1037,6 +1121,7 @@ func intList(xs []int) string {
 func runCase(c *Case, fixed bool) *result {
 	e := &env{c: c, fixed: fixed, gs: map[int64]*gstate{}, hids: map[interface{}][2]int{}, tokByPtr: map[interface{}]*tok{}, stats: map[string]int{},
 		points: map[string]bool{}, mirrorOK: true}
+	e.nCtx = 2
 	e.base = batch.WithBatching(concurrencylimiter.With(context.Background(), c.Limit))
 	e.nolim = batch.WithBatching(context.Background())
 	e.bf = &batch.Func{
@@ -1497,7 +1582,7 @@ func main() {
 		if len(terms) == 0 {
 			return
 		}
-		run.WriteCasesV(fmt.Sprintf("cases_%d.v", start), []string{"Limiter.Model", "Limiter.ModelMulti"}, "", "mmismatches_from_sparse", 0, terms)
+		run.WriteCasesV(fmt.Sprintf("cases_%d.v", start), []string{"Limiter.Model", "Limiter.ModelMulti", "Limiter.ModelChain"}, "", "kmismatches_from_sparse", 0, terms)
 		terms = nil
 	}
 	nFail := 0
@@ -1585,17 +1670,13 @@ func main() {
 			if !e.mirrorOK {
 				// the hook sequence does not have the shape of the code the model describes: leave the
 				// events as they are, the replay will reject them
-				e.events = append(e.events, "(0, LFRet 99999, 0, None)")
+				e.events = append(e.events, "(KOp 0 (LFRet 99999), 0, None)")
 			}
 			free := "None"
 			if res.free != nil {
 				free = "(Some " + intList(res.free) + ")"
 			}
-			caps := make([]int, len(e.lims))
-			for i, l := range e.lims {
-				caps[i] = l.cap
-			}
-			terms = append(terms, fmt.Sprintf("(%d, mk_mcase %v %s %s %s %v %s %v)", idx, fixed, intList(caps),
+			terms = append(terms, fmt.Sprintf("(%d, mk_kcase %v %d %s %s %v %s %v)", idx, fixed, c.Limit,
 				vh.CoqList(e.events), intList(res.finalLens), res.quiescent, free, e.over))
 			if len(terms) >= shard {
 				flush()
